@@ -16,11 +16,11 @@ func init() {
 	core.Register(&core.Prop{
 		ID:    "C10",
 		Level: "exploration",
-		Rule: "case = seeded history (1-60 ops) on a sketch with exact summary statistics over {Add, AddWithCount (incl. weight 0), rejected calls through Add, AddWithCount and Reweight (NaN, +-Inf, beyond the largest indexable value, negative weight, factor 0), MergeWith, DecodeAndMergeWith, Copy-continue, Clear, Reweight, ChangeMapping, Encode->Decode into any store kind} with values from the hostile value generator (plus adversarial sum sequences: 2^53 then many 1.0, alternating +-large, tiny after huge) and dyadic weights; " +
+		Rule: "case = seeded history (1-60 ops) on a sketch with exact summary statistics over {Add, AddWithCount (incl. weight 0), rejected calls through Add, AddWithCount, Reweight and MergeWith (NaN, +-Inf, beyond the largest indexable value, negative weight, factor 0, an argument with another mapping - also into an empty or just cleared receiver), MergeWith, DecodeAndMergeWith, Copy-continue, Clear, Reweight, ChangeMapping, Encode->Decode into any store kind} with values from the hostile value generator (plus adversarial sum sequences: 2^53 then many 1.0, alternating +-large, tiny after huge) and dyadic weights; " +
 			"in 40% of the histories up to 3 copies stay alive as companions (they keep absorbing values, are reweighted and cleared, are merged into the sketch and receive it as merge argument; every oracle applies to each of them), 35% are quiet (queries only after every 2nd-12th event); after every (queried) event: GetCount exact, IsEmpty iff nothing with positive weight, GetMin/MaxValue bitwise the true extremes, GetSum within (16+8L)*2^-53*sum|v*w| of the exact sum (L = lossy events), every quantile == clamp(plain answer, min, max) and inside [min,max], bins equal to the model when defined. " +
 			"Non-trivial = history with >=1 merge-or-decode and >=1 of {Reweight, Clear, Copy, ChangeMapping}; distinct = hash of the history.",
 		Cases:     core.Scale(30000, 800000),
-		Mandatory: []string{"oracle.stat_checks", "oracle.sum_checks", "oracle.quantile_clamp_checks", "event.MergeWith", "event.DecodeAndMergeWith", "event.Reweight", "event.ChangeMapping", "event.Encode->Decode", "event.Copy->continue", "event.Clear", "adversarial_sum_cases", "adversarial_copy_chains", "zero_weight_adds", "event.rejected_call", "histories_with_live_companions", "event.MergeWith(live companion)", "event.companion.MergeWith(sketch)", "quiet.histories"},
+		Mandatory: []string{"oracle.stat_checks", "oracle.sum_checks", "oracle.quantile_clamp_checks", "event.MergeWith", "event.DecodeAndMergeWith", "event.Reweight", "event.ChangeMapping", "event.Encode->Decode", "event.Copy->continue", "event.Clear", "adversarial_sum_cases", "adversarial_copy_chains", "zero_weight_adds", "event.rejected_call", "event.rejected_merge_into_empty_receiver", "histories_with_live_companions", "event.MergeWith(live companion)", "event.companion.MergeWith(sketch)", "quiet.histories"},
 		Assumptions: []string{
 			"dyadic weights under the exactness budget make the count exact; sum bound calibrated (DESIGN §3.6)",
 			"a ChangeMapping may round min/max like fl(extreme*factor)",
@@ -255,14 +255,38 @@ func runC10(c *core.Ctx) {
 			return
 		}
 		kinds[op.kind] = true
-		if r.P(0.08) {
+		if r.P(0.08) || (op.kind == opClear && r.P(0.5)) {
 			// a rejected call through either entry point: the statistics absorb nothing
 			k := st.s.I()
 			var err error
 			what := ""
 			beyond := math.Nextafter(st.m.M.MaxIndexableValue(), math.Inf(1))
 			c.Guard("rejected call", func() {
-				switch r.Intn(9) {
+				pick := r.Intn(12)
+				if op.kind == opClear {
+					pick = 9 + r.Intn(3) // an empty receiver has nothing of its own: a refused merge must leave it so
+				}
+				switch pick {
+				case 9, 10, 11:
+					// a merge refused because the mappings differ (argument: a non-empty exact sketch of another accuracy)
+					al := st.m.M.RelativeAccuracy() * 1.5
+					if al >= 0.99 {
+						al = st.m.M.RelativeAccuracy() / 2
+					}
+					om, merr := gen.NewMap(st.m.Kind, al)
+					if merr != nil {
+						what, err = "Reweight(0)", k.Reweight(0)
+						return
+					}
+					other := mon.NewSketch(true, om.M, gen.RandPlainStore(r))
+					other.I().AddWithCount(om.ClampIn(3), 2)
+					other.I().AddWithCount(-om.ClampIn(40), 1.5)
+					other.I().Add(0)
+					what, err = "MergeWith(non-empty sketch of another accuracy)", st.s.MergeWith(other)
+					c.Count("event.rejected_merge", 1)
+					if st.mdl.Total() == 0 {
+						c.Count("event.rejected_merge_into_empty_receiver", 1)
+					}
 				case 0:
 					what, err = "Add(NaN)", k.Add(math.NaN())
 				case 1:
